@@ -1,6 +1,54 @@
-// iter kinds -- filled in by the corresponding check (see /verif/CONVENTIONS.md).
+// Iterative sparse solvers (C08, C09): f64 only.
+//   it.cg | it.bicgstab | it.qmr   <rows> <cols> [ri..] [ci..] [vals..] [b..] [x0..] <max_iter> <tol>
+//   it.bicg <itol>                 <rows> <cols> [ri..] [ci..] [vals..] [b..] [x0..] <max_iter> <tol>
+// The matrix is built with Sparse::from_triplets from the triplets in the order given.
+// Answer: i0 i<k> (Ok(k)) or i1 f<err> (Err(err)), then x (length, components), then the budget.
+// With the suffix ".t" (it.cg.t, it.bicg.t, ...) the answer is the stream of the correspondence check:
+// i0 i<k> x budget after Ok, i1 budget after Err (a non-converged run is not compared float by float).
+// The operands b (a shared reference) must come back bit-for-bit unchanged.
 #![allow(unused_imports, dead_code)]
+use ohsl::{Sparse, Vector};
 use crate::io::{Args, Out, Elt};
-pub fn run(kind: &str, _a: &mut Args, _out: &mut Out) {
-    panic!("harness: unknown kind {}", kind);
+
+pub fn run(kind0: &str, a: &mut Args, out: &mut Out) {
+    let brief = kind0.ends_with(".t");
+    let kind = if brief { &kind0[..kind0.len() - 2] } else { kind0 };
+    let itol = if kind == "it.bicg" { a.usize() } else { 0 };
+    let rows = a.usize();
+    let cols = a.usize();
+    let ri = a.usizes();
+    let ci = a.usizes();
+    let vals = a.vec_std::<f64>();
+    if ri.len() != ci.len() || ri.len() != vals.len() { panic!("harness: triplet lists differ in length"); }
+    let b = a.v::<f64>();
+    let mut x = a.v::<f64>();
+    let max_iter = a.usize();
+    let tol = a.f64();
+    let mut triplets: Vec<(usize, usize, f64)> = (0..ri.len()).map(|k| (ri[k], ci[k], vals[k])).collect();
+    let s = Sparse::<f64>::from_triplets(rows, cols, &mut triplets);
+    let bsnap: Vec<u64> = (0..b.size()).map(|i| b[i].to_bits()).collect();
+    let r = match kind {
+        "it.cg" => s.solve_cg(&b, &mut x, max_iter, tol),
+        "it.bicg" => s.solve_bicg(&b, &mut x, max_iter, tol, itol),
+        "it.bicgstab" => s.solve_bicgstab(&b, &mut x, max_iter, tol),
+        "it.qmr" => s.solve_qmr(&b, &mut x, max_iter, tol),
+        _ => panic!("harness: unknown kind {}", kind),
+    };
+    for i in 0..b.size() {
+        if b[i].to_bits() != bsnap[i] { panic!("harness: operand mutated by {}", kind); }
+    }
+    if brief {
+        match r {
+            Ok(k) => { out.usize(0); out.usize(k); out.v(&x); }
+            Err(_) => { out.usize(1); }
+        }
+        out.usize(max_iter);
+        return;
+    }
+    match r {
+        Ok(k) => { out.usize(0); out.usize(k); }
+        Err(e) => { out.usize(1); out.f(e); }
+    }
+    out.v(&x);
+    out.usize(max_iter);
 }
